@@ -166,7 +166,7 @@ PROPS = {
         'level_text': 'Proof (refusal_identity, retry_succeeds): whenever the generated method returns Err, the machine handed back equals the receiver (state, context, every slot) and only around-Before stages and conditions ran; a later call under favourable conditions succeeds. Dynamic-mode half proved in SMV/Props/C05 once the wrapper theorems land.',
         'level_note': 'Around callbacks are modelled as taking &self (a write they perform is outside the model). Tie: T2 regions AB GC HD.',
         'title': 'A refused transition has no effect and returns the machine intact',
-        'modules': ['SMV.Props.C05', 'SMV.Props.C05Dyn'],
+        'modules': ['SMV.Props.C05', 'SMV.Props.C05Dyn', 'SMV.Props.RefineSkip'],
         'regions': ['AB', 'GC', 'HD'],
         't3': ['assign', 'walk'],
         'design_ref': 'DESIGN.md §7 C05',
